@@ -238,6 +238,292 @@ def role_change_case(report, backend, rng, keys):
         relay.close()
 
 
+# ---------------------------------------------------------------------------------------------------------------------
+# identity sessions: connections whose identity CHANGES while they live, and that re-use what they hold
+# ---------------------------------------------------------------------------------------------------------------------
+ROLE_ALPHABET = ["r", "w", "rw", "s", "a", "z", "RW", "rs"]
+IDSESS_CONFIGS = [("w", "r"), ("ws", "rw"), ("w", "a"), ("a", "r"), ("rw", "s")]
+SUB_IDS = ["s0", "s1"]          # a deliberately tiny pool: a REQ very often carries the id of a subscription that is open
+
+
+def gen_identity_program(rng, pks, steps, save_roles="w", query_roles="r"):
+    """a random program for two long-lived connections (same remote address) and the storage behind them: (re-)authentication
+    as any of three pubkeys, failed authentication, role assignments in storage, REQ / CLOSE over a tiny pool of
+    subscription ids, new events (regular, ephemeral, parameterised replaceable with a tiny pool of d values =
+    replacements), re-submissions of earlier events, and publications by a third party (live deliveries).
+    Only symbolic steps: events are built when the program runs, so the program is its own replay.
+    The generator keeps a rough picture of the session (who holds which roles, which ids are probably open) for one purpose
+    only: to steer towards histories in which a connection's verdict CHANGES while it holds something — role sets are drawn
+    from both sides of each configured action, and a REQ prefers an id that is probably open."""
+    filters = [{"kinds": [1]}, {"kinds": [1, 30000]}, {"kinds": [20001, 30000]}, {"kinds": [1, 20001, 30000], "limit": 10},
+               {"kinds": [1, 30000], "authors": [pks[0], pks[1]]}, {"kinds": [1], "authors": [pks[2]]}]
+
+    def pick_roles():
+        action = set(rng.choice([save_roles, query_roles, query_roles]))
+        side = rng.random() < 0.6
+        pool = [r for r in ROLE_ALPHABET if bool(set(r.lower()) & action) == side]
+        return rng.choice(pool or ROLE_ALPHABET)
+
+    prog = []
+    assigned = {}
+    for k in rng.sample(range(3), rng.choice([2, 3])):        # (a pubkey without assignment has the anonymous role)
+        assigned[k] = pick_roles()
+        prog.append({"op": "roles", "k": k, "roles": assigned[k]})
+    holds = {0: None, 1: None}
+    tok = {0: "a", 1: "a"}
+    probably_open = {0: [], 1: []}
+    made = []                                                 # steps that created an event
+
+    def req(c, sub):
+        prog.append({"op": "req", "c": c, "sub": sub, "f": [rng.choice(filters)]})
+        if set(tok[c]) & set(query_roles):
+            if sub not in probably_open[c]:
+                probably_open[c].append(sub)
+        elif sub in probably_open[c]:
+            probably_open[c].remove(sub)
+
+    def auth(c, k):
+        prog.append({"op": "auth", "c": c, "k": k})
+        holds[c], tok[c] = k, assigned.get(k, "a").lower()
+        # the moment that matters: right after its identity has changed the connection re-uses something it holds
+        if rng.random() < 0.6:
+            y = rng.random()
+            if y < 0.55 and probably_open[c]:
+                req(c, rng.choice(probably_open[c]))
+            elif y < 0.8 and made:
+                prog.append({"op": "resend", "c": c, "ref": rng.choice(made)})
+            else:
+                made.append(len(prog))
+                prog.append({"op": "event", "c": c, "k": rng.randrange(3), "kind": 30000, "d": rng.choice("xy")})
+
+    while len(prog) < steps:
+        x = rng.random()
+        c = rng.randrange(2)
+        if x < 0.16:
+            auth(c, rng.randrange(3))
+        elif x < 0.19:
+            prog.append({"op": "auth_bad", "c": c, "k": rng.randrange(3)})
+        elif x < 0.29:
+            held = [k for k in holds.values() if k is not None]
+            k = rng.choice(held) if held and rng.random() < 0.7 else rng.randrange(3)
+            assigned[k] = pick_roles()
+            prog.append({"op": "roles", "k": k, "roles": assigned[k]})
+            # mostly the connection that holds this pubkey authenticates again and so picks the new roles up
+            for cc, kk in list(holds.items()):
+                if kk == k and rng.random() < 0.6:
+                    auth(cc, k)
+        elif x < 0.53:
+            req(c, rng.choice(probably_open[c]) if probably_open[c] and rng.random() < 0.7 else rng.choice(SUB_IDS))
+        elif x < 0.56:
+            sub = rng.choice(SUB_IDS)
+            prog.append({"op": "close", "c": c, "sub": sub})
+            if sub in probably_open[c]:
+                probably_open[c].remove(sub)
+        elif x < 0.74:
+            kind = rng.choice([1, 1, 20001, 30000, 30000])
+            made.append(len(prog))
+            prog.append({"op": "event", "c": c, "k": rng.randrange(3), "kind": kind, "d": rng.choice("xy")})
+        elif x < 0.83 and made:
+            prog.append({"op": "resend", "c": c, "ref": rng.choice(made)})
+        else:
+            made.append(len(prog))
+            prog.append({"op": "publish", "kind": rng.choice([1, 1, 20001, 30000]), "d": rng.choice("xy")})
+    return prog
+
+
+def _matches(ev, filters):
+    return any(ev["kind"] in f.get("kinds", [ev["kind"]]) and ev["pubkey"] in f.get("authors", [ev["pubkey"]]) for f in filters)
+
+
+def identity_session(report, backend, save_roles, query_roles, program, keys):
+    """runs one program (gen_identity_program) through the real start_client.  Oracle = the property, stated over the
+    history: every REQ / EVENT is judged by the roles of the token the connection holds AT THAT MOMENT (the anonymous role
+    before the first successful AUTH; the roles its pubkey had in storage when it last authenticated successfully) —
+      EVENT: roles ∩ save = ∅  =>  one OK false 'restricted', the event is neither stored nor pushed to anybody by this submission;
+             else not 'restricted', and a first submission is stored / broadcast;
+      REQ:   roles ∩ query = ∅ =>  NOTICE 'restricted', no stored answer, no EOSE, the connection holds no subscription of that
+             id, and nothing is delivered under that id later on either (until an authorised REQ opens it again);
+             else served (EOSE, stored matches),
+    whatever the connection was allowed to do earlier, whatever it holds already (an open subscription of the same id, an
+    event it submitted before).  Where the roles in storage of the held pubkey have changed since the authentication and the
+    two role sets give different verdicts, the property text does not decide ('the connection's roles'): not judged."""
+    import time
+    from aionostr.key import PrivateKey
+
+    relay = Relay(backend, authentication={"enabled": True, "relay_urls": [URL], "actions": {"save": save_roles, "query": query_roles}})
+    try:
+        pks = [k.public_key.hex() for k in keys]
+        obs_key = PrivateKey(bytes([9]) * 32)
+        relay.set_roles(obs_key.public_key.hex(), "arws")
+        obs = Conn(relay)
+        obs.send(["AUTH", auth_answer(relay, obs_key, obs.challenge())])
+        obs.send(["REQ", "watch", {"kinds": [1, 20001, 30000]}])
+        conns = [Conn(relay), Conn(relay)]
+        everybody = conns + [obs]
+        base = int(time.time()) - 2000
+        stored_roles = {}                       # pubkey -> role set as last assigned
+        token = [None, None]                    # per connection: None or (pubkey, role set at authentication)
+        ever = [{frozenset("a")}, {frozenset("a")}]      # role sets the connection has held so far (it starts anonymous)
+        open_ids = [set(), set()]               # subscription ids open by the specification
+        refused = [set(), set()]                # ids whose last REQ was refused: nothing may arrive under them
+        events = {}                             # step -> event
+        accepted = {}                           # id -> event, acknowledged with OK true
+        need = {"save": set(save_roles), "query": set(query_roles)}
+
+        def verdict(c, action):
+            """(allowed by the token, decided?)"""
+            if token[c] is None:
+                return bool(set("a") & need[action]), True
+            pk, roles = token[c]
+            by_token = bool(roles & need[action])
+            by_storage = bool(stored_roles.get(pk, set("a")) & need[action])
+            return by_token, by_token == by_storage
+
+        def who(c):
+            return "connection %d holding roles %r%s" % (
+                c, sorted(token[c][1]) if token[c] else ["a"], "" if token[c] else " (unauthenticated)")
+
+        for step, st in enumerate(program):
+            op = st["op"]
+            payload = {"case": "identity-session", "backend": backend, "save": save_roles, "query": query_roles,
+                       "program": program, "step": step}
+            marks = [len(x.out) for x in everybody]
+            key = None
+            if op == "roles":
+                relay.set_roles(pks[st["k"]], st["roles"])
+                stored_roles[pks[st["k"]]] = set(st["roles"].lower())
+                got = relay.run(relay.storage.get_auth_roles(pks[st["k"]]))
+                if set(got) != stored_roles[pks[st["k"]]]:
+                    report.property_failure("%s: roles of %s.. read back as %r after setting %r"
+                                            % (backend, pks[st["k"]][:6], sorted(got), st["roles"]), payload, None)
+            elif op in ("auth", "auth_bad"):
+                c = st["c"]
+                ch = conns[c].challenge()
+                conns[c].send(["AUTH", auth_answer(relay, keys[st["k"]], ch if op == "auth" else "00" * 16)])
+                said_no = any(isinstance(f, list) and f[0] == "NOTICE" for f in conns[c].frames(marks[c]))
+                if op == "auth" and not said_no:
+                    pk = pks[st["k"]]
+                    new = (pk, set(stored_roles.get(pk, set("a"))))
+                    if token[c] is not None and token[c] != new:
+                        report.count("idsess_identity_changes")
+                    token[c] = new
+                    ever[c].add(frozenset(new[1]))
+                elif op == "auth":
+                    report.count("idsess_valid_auth_answered_with_notice")      # (C15's business; the identity then stays)
+            elif op == "req":
+                c, sub = st["c"], st["sub"]
+                allowed, decided = verdict(c, "query")
+                reuse = sub in open_ids[c]
+                conns[c].send(["REQ", sub] + st["f"])
+                fr = [f for f in conns[c].frames(marks[c]) if isinstance(f, list)]
+                answer = [f for f in fr if f[0] in ("EVENT", "EOSE") and f[1] == sub]
+                restricted = any(f[0] == "NOTICE" and "restricted" in str(f[1]) for f in fr)
+                holds = any(i == sub and getattr(s, "queue", None) is conns[c]._queue
+                            for subs in relay.storage.clients.values() for i, s in subs.items())
+                how = "%s sent REQ %r%s" % (who(c), sub, " (an id it has open already)" if reuse else "")
+                if not decided:
+                    report.count("idsess_stale_token_unjudged")
+                    allowed = any(f[0] == "EOSE" for f in answer)
+                elif allowed:
+                    have = [e for e in accepted.values() if e["id"] in relay.store.ids() and _matches(e, st["f"])]
+                    if restricted or not any(f[0] == "EOSE" for f in answer) or (have and not any(f[0] == "EVENT" for f in answer)):
+                        report.property_failure("%s: %s (query needs %r) and was not served: %r" % (backend, how, query_roles, fr[:3]),
+                                                payload, None)
+                else:
+                    if answer or holds:
+                        report.property_failure(
+                            "%s: %s (query needs %r) and was served: %d events%s%s, instead of being refused" % (
+                                backend, how, query_roles, sum(1 for f in answer if f[0] == "EVENT"),
+                                ", EOSE" if any(f[0] == "EOSE" for f in answer) else "",
+                                ", and holds a subscription of that id" if holds else ""), payload, None)
+                    elif not restricted:
+                        report.property_failure("%s: %s (query needs %r): the refusal is not a 'restricted' NOTICE: %r"
+                                                % (backend, how, query_roles, fr), payload, None)
+                    if reuse:
+                        report.count("idsess_req_refused_under_open_id")
+                if reuse:
+                    report.count("idsess_req_under_open_id")
+                if allowed:
+                    open_ids[c].add(sub)
+                    refused[c].discard(sub)
+                else:
+                    open_ids[c].discard(sub)
+                    refused[c].add(sub)
+                key = (op, allowed, decided, reuse, len(ever[c]) > 1)
+            elif op == "close":
+                c = st["c"]
+                conns[c].send(["CLOSE", st["sub"]])
+                open_ids[c].discard(st["sub"])
+            elif op in ("event", "resend", "publish"):
+                if op == "resend":
+                    ev = events[st["ref"]]
+                else:
+                    sk = obs_key if op == "publish" else keys[st["k"]]
+                    ev = relay.signed_event(sk, kind=st["kind"], content="step %d" % step, created_at=base + step,
+                                            tags=[["d", st["d"]]] if st["kind"] == 30000 else [])
+                    events[step] = ev
+                ephemeral = 20000 <= ev["kind"] < 30000
+                was_stored = ev["id"] in relay.store.ids()
+                first = not was_stored and ev["id"] not in accepted
+                # a replaceable event older than an accepted one of the same address may rightly be turned away
+                superseded = any(e["id"] != ev["id"] and (e["pubkey"], e["kind"], e["tags"]) == (ev["pubkey"], ev["kind"], ev["tags"])
+                                 and e["created_at"] >= ev["created_at"] for e in accepted.values() if e["kind"] == 30000)
+                if op == "publish":
+                    sender, c, allowed, decided = obs, None, True, True
+                else:
+                    c = st["c"]
+                    sender = conns[c]
+                    allowed, decided = verdict(c, "save")
+                n = len(sender.out)
+                sender.send(["EVENT", ev])
+                oks = [f for f in sender.frames(n) if isinstance(f, list) and f[0] == "OK"]
+                stored = ev["id"] in relay.store.ids()
+                pushed_to = [i for i, x in enumerate(everybody) for f in x.frames(marks[i])
+                             if isinstance(f, list) and f[0] == "EVENT" and isinstance(f[2], dict) and f[2].get("id") == ev["id"]]
+                how = "%s %s a kind-%d event" % ("the observer" if c is None else who(c),
+                                                 "re-submitted" if op == "resend" else "submitted", ev["kind"])
+                if len(oks) != 1:
+                    report.property_failure("%s: %s: %d OK frames" % (backend, how, len(oks)), payload, None)
+                elif not decided:
+                    report.count("idsess_stale_token_unjudged")
+                elif allowed:
+                    if "restricted" in str(oks[0][3]):
+                        report.property_failure("%s: %s (save needs %r) and was told %r" % (backend, how, save_roles, oks[0][3]), payload, None)
+                    elif first and not superseded and not (oks[0][2] and (stored or (ephemeral and 2 in pushed_to))):
+                        report.property_failure("%s: %s (save needs %r): refused or not stored / broadcast: %r"
+                                                % (backend, how, save_roles, oks[0]), payload, None)
+                else:
+                    if oks[0][2] or (stored and not was_stored) or pushed_to:
+                        report.property_failure(
+                            "%s: %s (save needs %r) and it was %s" % (
+                                backend, how, save_roles,
+                                "acknowledged" if oks[0][2] else ("stored" if stored and not was_stored else "pushed to subscribers")),
+                            payload, None)
+                    elif "restricted" not in str(oks[0][3]):
+                        report.property_failure("%s: %s (save needs %r): the refusal does not say 'restricted': %r"
+                                                % (backend, how, save_roles, oks[0]), payload, None)
+                    if op == "resend":
+                        report.count("idsess_resend_refused")
+                if oks and oks[0][2]:
+                    accepted[ev["id"]] = ev
+                key = (op, ev["kind"], allowed, decided, first, c is not None and len(ever[c]) > 1)
+            # whatever the step was: nothing arrives under an id whose REQ was refused
+            for c in (0, 1):
+                late = [f for f in conns[c].frames(marks[c]) if isinstance(f, list) and f[0] in ("EVENT", "EOSE") and f[1] in refused[c]]
+                if late and not (op == "req" and st["c"] == c and st["sub"] == late[0][1]):      # (that one is reported above)
+                    report.property_failure(
+                        "%s: connection %d received %d frame(s) under subscription id %r although its last REQ of that id had been "
+                        "refused ('restricted')" % (backend, c, len(late), late[0][1]), payload, None)
+            if key is not None:
+                report.case(("identity-session", backend, save_roles, query_roles) + key, nontrivial=True,
+                            sample={"backend": backend, "save": save_roles, "query": query_roles, "step": st})
+            report.count("idsess_steps_" + backend)
+        for x in everybody:
+            x.close()
+    finally:
+        relay.close()
+
+
 def run(report, tier, seed):
     rng = random.Random(seed)
     drv = common.Driver()
@@ -252,7 +538,12 @@ def run(report, tier, seed):
         "(regular, ephemeral, parameterised replaceable) with "
         "an all-powerful observer watching broadcasts; the homeserver output validator on stored answers and live pushes; "
         "role assignments set repeatedly and read back; the roles of a pubkey changed (revoked / narrowed / widened) between two "
-        "authentications, EVENT and REQ after each; non-trivial = something must be refused")
+        "authentications, EVENT and REQ after each; identity sessions: random programs over two long-lived connections (one "
+        "address) that authenticate again and again as any of three pubkeys (also unsuccessfully) while role assignments change "
+        "in storage, and that re-use what they hold — REQ over a pool of two subscription ids (so mostly an id that is open), "
+        "re-submission of earlier events, replacements — with third-party publications in between; every REQ / EVENT judged by "
+        "the roles of the token held at that moment, and nothing may arrive under an id whose REQ was refused; "
+        "non-trivial = something must be refused")
     report.assumptions += ["identities are established with real NIP-42 answers; the per-object hook evaluate_target is the shipped no-op"]
     try:
         can_do_matrix(report, drv)
@@ -278,6 +569,15 @@ def run(report, tier, seed):
             roles_roundtrip(report, backend, rng, keys)
             for _ in range(2 if tier == "quick" else 12):
                 role_change_case(report, backend, rng, keys)
+            # connections whose identity changes during their lifetime and that re-use what they hold.  The sizes are chosen
+            # on general grounds: ~16 % of the steps are authentications and ~24 % REQs over two ids, so that a program of 48
+            # steps contains several "REQ under an open id after the verdict of the connection has changed" in either direction
+            # (the counters idsess_* in the evidence say how many there were)
+            pks = [k.public_key.hex() for k in keys]
+            n_prog, n_steps = (6, 48) if tier == "quick" else (40, 60)
+            for i in range(n_prog):
+                s, q = IDSESS_CONFIGS[i % len(IDSESS_CONFIGS)] if i < len(IDSESS_CONFIGS) else rng.choice(IDSESS_CONFIGS)
+                identity_session(report, backend, s, q, gen_identity_program(rng, pks, n_steps, s, q), keys)
     finally:
         drv.close()
 
@@ -295,7 +595,9 @@ def replay(report, path):
     try:
         for it in (data.get("violations") or []):
             r = it.get("replay") or {}
-            if "save" in r:
+            if r.get("case") == "identity-session":
+                identity_session(report, r["backend"], r["save"], r["query"], r["program"], keys)
+            elif "save" in r:
                 path_case(report, r["backend"], r["save"], r["query"], r["identity"], keys, kind=r.get("kind", 1))
             elif r.get("case") == "output_validator":
                 output_validator_case(report, r["backend"], keys)
